@@ -9,16 +9,16 @@ CONSTANTS
   RecvWin = 4
   MaxBuf = 4
   MaxSend0 = 1
-  NCall = 2
-  NApp = 1
-  NPeer = 2
-  MaxData = 1
-  CallKinds = {"poll_ready", "poll_reset"}
-  AppKinds = {"request", "request_keep", "send_reset", "drop_send", "drop_recv"}
-  PeerKinds = {"SET_MAXC", "HEADERS", "RST", "EOF"}
+  NCall = 4
+  NApp = 2
+  NPeer = 4
+  MaxData = 2
+  CallKinds = {"poll_response", "poll_data", "poll_trailers"}
+  AppKinds = {"request", "release", "drop_recv", "drop_send"}
+  PeerKinds = {"HEADERS", "DATA", "TRAILERS", "RST", "EOF"}
   IwsVals = {}
-  MaxcVals = {0, 2}
-  ReqEos = {FALSE, TRUE}
+  MaxcVals = {}
+  ReqEos = {TRUE}
   Allow = {"shared_slot", "push_after_recv_drop", "cancel_pending_open"}
   ExportLen = 0
 INVARIANT InvC06
